@@ -128,3 +128,43 @@ Proof.
   - vm_compute. discriminate.
   - apply to_serde_json_w_rfc; assumption.
 Qed.
+
+(* ---- "mutually inverse", the other direction (Extra19.v): for every serde_json value s of serde_json's data model
+   (sj_wf: a NegInt is negative, a Float is finite -- Number's own invariants -- and a Map is its key-ordered list of
+   distinct keys), Value::from(s) converted back gives s identically, through to_serde_json and through From<Value>;
+   the Value built is a jsonb document when the strings of s are Rust Strings and the numbers fit their types; and
+   whatever to_serde_json returns is in the data model.  With C19_roundtrip (serde_to_value s = unsign v): the two
+   conversions are mutually inverse bijections between finite documents in the reader's representation and serde values. *)
+From JB Require Import Extra19.
+Theorem C19_conversions_are_mutually_inverse :
+  (forall s, sj_wf s = true -> to_serde_json_t (serde_to_value s) = Ok s /\ value_to_serde (serde_to_value s) = Ok s) /\
+  (forall s, sj_wf s = true -> sj_strings s = true -> wf_shape (serde_to_value s) = true) /\
+  (forall v s, wf_shape v = true -> to_serde_json_t v = Ok s -> sj_wf s = true /\ serde_to_value s = unsign v).
+Proof.
+  split; [exact serde_value_roundtrip_both|]. split; [exact serde_to_value_wf|].
+  intros v s Hw H. split; [exact (to_serde_json_image_wf v Hw s H)|exact (serde_roundtrip v Hw s H)].
+Qed.
+Print Assumptions C19_conversions_are_mutually_inverse.
+
+(* From<Value> for serde_json::Value (value_to_serde) is to_serde_json on the tree wherever that succeeds -- in particular
+   on every document with finite numbers; where to_serde_json returns its error (a NaN or an infinity somewhere in the
+   document) the model of From<Value> returns Panic (`from_f64(v).unwrap()`), and that is the only way it panics *)
+Theorem C19_from_value_agrees_with_to_serde_json :
+  (forall v, finite_numbers v = true -> value_to_serde v = to_serde_json_t v) /\
+  (forall v, value_to_serde v = err_to_panic (to_serde_json_t v)) /\
+  (forall v, to_serde_json_t v <> Panic) /\
+  (forall v, value_to_serde v = Panic <-> exists e, to_serde_json_t v = Err e).
+Proof.
+  split; [exact value_to_serde_finite|]. split; [exact value_to_serde_is_to_serde_json|].
+  split; [exact to_serde_json_t_no_panic|exact value_to_serde_panics_iff].
+Qed.
+Print Assumptions C19_from_value_agrees_with_to_serde_json.
+
+(* ---- the recursion fuel of the to_serde_json walker (containter_to_serde_json over the payload sub-slices) is never the
+   reason for an answer, on ANY buffer, binary or text (ExtraFuel19.v): every nested item is at least 8 bytes shorter *)
+From JB Require Import ExtraFuel19.
+Theorem C19_fuel_never_exhausted :
+  (forall bs, to_serde_json_w bs <> Err EFuel) /\ (forall bs, to_serde_json_object_w bs <> Err EFuel) /\
+  (forall fuel bs, (length bs < fuel)%nat -> container_to_serde_w fuel bs <> Err EFuel).
+Proof. split; [exact to_serde_json_w_not_fuel|]. split; [exact to_serde_json_object_w_not_fuel|exact container_to_serde_fuel]. Qed.
+Print Assumptions C19_fuel_never_exhausted.
